@@ -275,11 +275,11 @@ def main(argv=None):
     bound = 2 if quick else 3
     jobs = [(c, bound if c.mode[0] != "tau_adaptive" else bound - 1, 20000 if quick else 100000) for c in cfgs]
     if not quick:
-        # the 1-edit neighbourhood of the seeds with one deviation less
+        # the 1-edit neighbourhood of the seeds with deviation bound 1
         seen = {gen.canon(d) for _s, d in defs}
         defs1 = [(s_, d) for s_, d in fam.gather_defs(seeds, 1)[0] if gen.canon(d) not in seen]
         cfgs1 = fam.l2_configs(defs1, "quick", modes=fam.MODES[:3])
-        jobs += [(c, 2 if c.mode[0] != "tau_adaptive" else 1, 20000) for c in cfgs1]
+        jobs += [(c, 1, 4000) for c in cfgs1]
         cfgs = cfgs + cfgs1
     order = sorted(range(len(jobs)), key=lambda k: (jobs[k][0].mode[0] != "tau_adaptive", -jobs[k][1]))
     jobs = [jobs[k] for k in order]
